@@ -146,6 +146,11 @@ def WCB.build (w : WCB) (f : Ty → GToks) : GToks :=
   let ws := w.items f
   if ws.isEmpty then [] else "where" :: termBy "," ws
 
+/-- where `Self` is not the type (`impl Add for &X`, the free function of the `Eq` check) the types and predicates of the
+where-clause have it written out -/
+def WCB.selfExpanded (to : Ty) (w : WCB) : WCB :=
+  { w with types := w.types.map (Ty.expandSelf to), preds := w.preds.map (WPred.expandSelf to) }
+
 /-- push only while `use` is still true (the `if use_bounds { use_bounds = … }` idiom) -/
 def WCB.pushIf (w : WCB) (use : Bool) (b : Bounds) : WCB × Bool :=
   if use then w.pushBounds b else (w, false)
